@@ -7,7 +7,7 @@
    same lists is NOT a theorem here -- it is what the correspondence check of this property tests
    on the real code generator, variant against variant and against the model. *)
 From Coq Require Import List NArith Bool.
-From HV Require Import Dfir.Model Dfir.ModelTick Dfir.ModelFlat Dfir.ModelRealise Dfir.POps Dfir.PRealise Dfir.PFlatCheck.
+From HV Require Import Dfir.Model Dfir.ModelTick Dfir.ModelFlat Dfir.ModelRealise Dfir.POps Dfir.PRealise Dfir.PFlatCheck Dfir.ModelRewrite Dfir.PFlat Dfir.PRewrite.
 Import ListNotations.
 
 Theorem C22_perturbation_operators :
@@ -90,6 +90,34 @@ Proof.
   destruct T1 as [A1 [A2 [_ A4]]]. destruct T2 as [B1 [B2 [_ B4]]]. repeat split; congruence.
 Qed.
 Print Assumptions C22_partition_shape.
+
+(* (ii) shape perturbations as rewrites of the flat graph.  The generator's perturbations splice a
+   pass-through gadget after the producer of a wire a -- an identity(), a tee() whose other branch
+   ends in null(), or a union() whose other input is null() -- and let every later reader of a read
+   the gadget's output b instead (chains = repeated splices).  Each gadget copies a to b and touches
+   nothing else; splicing any such gadget into any flat graph (original operators plain, not using
+   the gadget's wires or ids, a not written after the splice point) preserves, over every input
+   history, the sink outputs, the tick counts and the states of all original operators.  Together
+   with C22_partition_shape (any well-formed partition of a flat graph computes its denotation) this
+   covers identity chains, tee/union of one and forced handoff splits. *)
+Theorem C22_gadgets :
+  (forall k a b, a <> b -> gadget_ok (g_identity k a b) a b [b]) /\
+  (forall k1 k2 a b c, a <> b -> a <> c -> b <> c -> gadget_ok (g_tee_null k1 k2 a b c) a b [b; c]) /\
+  (forall k1 k2 a b d, a <> b -> a <> d -> b <> d -> gadget_ok (g_union_null k1 k2 a b d) a b [b; d]).
+Proof. split; [exact g_identity_ok|]. split; [exact g_tee_null_ok | exact g_union_null_ok]. Qed.
+Print Assumptions C22_gadgets.
+
+Theorem C22_splice_preserves : forall K a b P pre post ops1 ops2 h,
+  gadget_ok K a b P ->
+  Forall (node_ok (map n_id K) P) pre -> Forall (node_ok (map n_id K) P) post ->
+  Forall (fun n => ~ In a (n_outs n)) post ->
+  ops_agree (map n_id K) ops1 ops2 ->
+  let '(w1, obs1) := drive false (flat_prog_n (pre ++ post) ops1) h in
+  let '(w2, obs2) := drive false (flat_prog_n (splice pre K post a b) ops2) h in
+  w_out w1 = w_out w2 /\ obs1 = obs2 /\ w_panic w1 = w_panic w2 /\
+  forall id, ~ In id (map n_id K) -> olookup id (w_st w1) = olookup id (w_st w2).
+Proof. exact splice_program. Qed.
+Print Assumptions C22_splice_preserves.
 
 Example C22_example :
   run_op (op_union 2) [[[VN 1; VN 2]; []]; [[VN 3]; []]] = [[[VN 1; VN 2]]; [[VN 3]]].
